@@ -528,6 +528,13 @@ def run(ctx):
     skip = ("gate",) if os.environ.get("VERIF_FORCE_CORRESPONDENCE") else ("proof", "gate")   # development aid only
     if gen is not None and not any(bk.kind in skip for bk in ctx.broken):
         n_eval = correspond(ctx, items, meta)
+        try:        # the generated model is shared (coq/gen): a concurrent run on another tree may have replaced it meanwhile
+            with open(os.path.join(os.path.dirname(os.path.dirname(os.path.abspath(__file__))), "coq", "gen", "MatGen.v")) as fh:
+                if fh.read() != gen["gen/MatGen.v"] and any(bk.kind == "correspondence" for bk in ctx.broken):
+                    ctx.broken.append(Broken("harness", "concurrent-regeneration", "coq/gen/MatGen.v was rewritten by another run during the "
+                                             "correspondence of this one (its results may stem from a different tree); rerun when no other check is running"))
+        except OSError:
+            pass
     ctx.cov["evaluations"] = n_eval
     ctx.cov["traces_validated_against_impl"] = n_eval
     ctx.cov["distinct_nontrivial"] = len(dist)
